@@ -33,8 +33,7 @@ impl<Tz> DateTime<Tz> {
         ensures r as int == self.t as int / 1_000_000_000
     { unimplemented!() }
 }
-/// std::sync::Arc and the replica's dependency map: carried along, never inspected by the functions under contract
-pub struct DependencyMap { pub x: u8 }
+/// std::sync::Arc
 pub use std::sync::Arc;
 /// `str::parse::<F>()` (TRUSTED: total -- it returns Err for anything it cannot read -- and a function of the characters)
 #[verifier::external_type_specification]
@@ -86,4 +85,26 @@ impl DateTime<Utc> {
     pub fn from_timestamp(secs: i64, nsecs: u32) -> (r: Option<DateTime<Utc>>)
         ensures nsecs == 0 ==> ((r is Some) == (CHRONO_MIN_SECS <= secs <= CHRONO_MAX_SECS)) && (r matches Some(d) ==> d.t == secs * 1_000_000_000),
     { unimplemented!() }
+}
+/// `str::strip_prefix` with a string pattern
+pub open spec fn strip_prefix_spec(k: Seq<char>, pre: Seq<char>) -> Option<Seq<char>> {
+    if k.len() >= pre.len() && k.take(pre.len() as int) == pre { Some(k.skip(pre.len() as int)) } else { None }
+}
+/// a key of a TaskMap as handed out by `keys()` (a `&String` in the source; only `strip_prefix` is ever applied to it)
+pub struct TaskKey { pub s: String }
+impl TaskKey {
+    #[verifier::external_body]
+    pub fn strip_prefix(&self, prefix: &str) -> (r: Option<&str>)
+        ensures match r { Some(t) => strip_prefix_spec(self.s@, prefix@) == Some(t@), None => strip_prefix_spec(self.s@, prefix@) is None }
+    { unimplemented!() }
+}
+/// every key once, in unspecified order
+pub open spec fn keys_listed(m: TaskMapS, r: Seq<TaskKey>) -> bool {
+    &&& forall|i: int| 0 <= i < r.len() ==> m.dom().contains((#[trigger] r[i]).s@)
+    &&& forall|k: Seq<char>| m.dom().contains(k) ==> exists|i: int| 0 <= i < r.len() && (#[trigger] r[i]).s@ == k
+}
+impl TaskMap {
+    /// `HashMap::keys()` consumed by a `for` loop
+    #[verifier::external_body]
+    pub fn keys(&self) -> (r: Vec<TaskKey>) ensures keys_listed(self@, r@) { unimplemented!() }
 }
